@@ -59,6 +59,10 @@ type serverConn struct {
 	// last valid ID used as a reference for new IDs
 	lastID uint32
 
+	// discard is what is left to decode of a header block whose stream is gone.
+	// Owned by the stream loop.
+	discard blockRemainder
+
 	// client's window
 	// should be int64 because the user can try to overflow it
 	clientWindow int64
@@ -465,12 +469,18 @@ func (sc *serverConn) handleStreams() {
 	// recent ids are kept: a peer that has not caught up is at most a round
 	// trip behind, and an unbounded set would grow for the whole life of the
 	// connection.
-	closedStrms := make(map[uint32]struct{}, closedStrmsCap)
+	//
+	// The value says whether this side sent RST_STREAM on the stream. Frames
+	// the peer sent before it saw the reset are ignored, whatever they are;
+	// on a stream the peer itself ended or reset, anything but the three
+	// trailing kinds is an error (RFC 7540 5.1).
+	closedStrms := make(map[uint32]bool, closedStrmsCap)
 	closedRing := make([]uint32, 0, closedStrmsCap)
 	closedOldest := 0
 
-	markClosed := func(id uint32) {
+	markClosed := func(id uint32, resetSent bool) {
 		if _, ok := closedStrms[id]; ok {
+			closedStrms[id] = closedStrms[id] || resetSent
 			return
 		}
 
@@ -482,7 +492,7 @@ func (sc *serverConn) handleStreams() {
 			closedOldest = (closedOldest + 1) % closedStrmsCap
 		}
 
-		closedStrms[id] = struct{}{}
+		closedStrms[id] = resetSent
 	}
 
 	// releaseStream returns a finished stream and its context to the pools and
@@ -507,8 +517,17 @@ func (sc *serverConn) handleStreams() {
 	closeStream := func(strm *Stream) {
 		strmID := strm.ID()
 
-		markClosed(strmID)
+		markClosed(strmID, strm.resetSent)
 		strms.Del(strmID)
+
+		// A stream given up in the middle of a header block leaves the rest of
+		// the block to arrive, and it still has to go through the decoder.
+		if strm.blockOpen {
+			sc.discard.open = true
+			sc.discard.id = strmID
+			sc.discard.carry = append(sc.discard.carry[:0], strm.previousHeaderBytes...)
+			sc.discard.fields = strm.blockFields
+		}
 
 		sc.closeBodyStream(strm)
 
@@ -630,7 +649,7 @@ loop:
 				if sc.debug {
 					sc.logger.Printf("Stream timed out: %d\n", strm.ID())
 				}
-				sc.writeReset(strm.ID(), StreamCanceled)
+				sc.resetStream(strm, StreamCanceled)
 
 				// set the state to closed in case it comes back to life later
 				strm.SetState(StreamStateClosed)
@@ -711,7 +730,8 @@ loop:
 
 				if fr.Type() == FrameResetStream {
 					// only send go away on idle stream not on an already-closed stream
-					if fr.Stream() > sc.lastID {
+					// (a refused stream is closed without ever having been the latest)
+					if _, closed := closedStrms[fr.Stream()]; !closed && fr.Stream() > sc.lastID {
 						sc.writeGoAway(fr.Stream(), ProtocolError, "RST_STREAM on idle stream")
 
 						// No further frame may ever reach this loop, so this
@@ -725,17 +745,27 @@ loop:
 					continue
 				}
 
-				if _, ok := closedStrms[fr.Stream()]; ok {
+				if resetSent, ok := closedStrms[fr.Stream()]; ok {
 					// A WINDOW_UPDATE, RST_STREAM or PRIORITY frame may
 					// legitimately arrive shortly after a stream is closed,
 					// because the peer had not yet processed the END_STREAM or
 					// RST_STREAM when it sent them. These MUST be ignored, not
 					// treated as connection errors (RFC 7540 5.1). Anything else
-					// (HEADERS, DATA, CONTINUATION) on a closed stream is an
-					// error.
+					// (HEADERS, DATA, CONTINUATION) on a stream the peer closed
+					// is an error. On a stream this side reset it is something
+					// the peer sent before it knew, and is ignored as well.
 					switch fr.Type() {
 					case FramePriority, FrameWindowUpdate, FrameResetStream:
 					default:
+						if resetSent {
+							if err := sc.discardFrame(fr); err != nil {
+								sc.writeError(nil, err)
+								break loop
+							}
+
+							continue
+						}
+
 						sc.writeGoAway(fr.Stream(), StreamClosedError, "frame on closed stream")
 
 						if canCloseAfterGoAway() {
@@ -776,11 +806,19 @@ loop:
 
 					sc.writeReset(fr.Stream(), RefusedStreamError)
 
-					// The DATA that follows a refused HEADERS is already on its
-					// way when the peer learns of the refusal, and it was sent
-					// against the connection window.
-					if fr.Type() == FrameData {
-						sc.consumeConnRecvWindow(fr.Len())
+					// The stream is closed by that reset, without ever having
+					// been the latest, and what follows the refused HEADERS is
+					// already on its way when the peer learns of the refusal.
+					if fr.Type() == FrameHeaders {
+						markClosed(fr.Stream(), true)
+					}
+
+					// The frame itself still counts: DATA was sent against the
+					// connection window, and a header block was encoded against
+					// the dynamic table.
+					if err := sc.discardFrame(fr); err != nil {
+						sc.writeError(nil, err)
+						break loop
 					}
 
 					continue
@@ -870,7 +908,7 @@ loop:
 							sc.logger.Printf("Canceling stream in idle state: %d\n", nstrm.ID())
 						}
 
-						sc.writeReset(nstrm.ID(), StreamCanceled)
+						sc.resetStream(nstrm, StreamCanceled)
 
 						continue
 					}
@@ -915,7 +953,7 @@ loop:
 				// bytes actually received.
 				// https://httpwg.org/specs/rfc7540.html#rfc.section.8.1.2.6
 				if strm.hasContentLength && strm.recvBody != strm.contentLength {
-					sc.writeReset(strm.ID(), ProtocolError)
+					sc.resetStream(strm, ProtocolError)
 					strm.SetState(StreamStateClosed)
 				} else {
 					// The response comes back on handlerDone, not here.
@@ -994,6 +1032,15 @@ func (sc *serverConn) writeWindowUpdate(id uint32, inc int) {
 	sc.write(fr)
 }
 
+// resetStream sends RST_STREAM on a stream in the table and remembers that it
+// did, which is what lets the frames the peer still had on the way be ignored
+// once the stream is closed.
+func (sc *serverConn) resetStream(strm *Stream, code ErrorCode) {
+	strm.resetSent = true
+
+	sc.writeReset(strm.ID(), code)
+}
+
 func (sc *serverConn) writeReset(strm uint32, code ErrorCode) {
 	r := AcquireFrame(FrameResetStream).(*RstStream)
 
@@ -1052,7 +1099,7 @@ func (sc *serverConn) writeError(strm *Stream, err error) {
 			return
 		}
 
-		sc.writeReset(strm.ID(), InternalError)
+		sc.resetStream(strm, InternalError)
 		strm.SetState(StreamStateClosed)
 
 		return
@@ -1071,7 +1118,7 @@ func (sc *serverConn) writeError(strm *Stream, err error) {
 			return
 		}
 
-		sc.writeReset(strm.ID(), streamErr.Code())
+		sc.resetStream(strm, streamErr.Code())
 	}
 
 	if strm != nil {
@@ -1216,6 +1263,102 @@ func (sc *serverConn) handleFrame(strm *Stream, fr *FrameHeader) error {
 	return err
 }
 
+// blockRemainder is the decoding state of a header block whose stream was
+// reset, or refused, while the block was still arriving. The peer encoded the
+// rest of it against the connection's dynamic table, and every later block is
+// decoded against what this one leaves behind, so it is still decoded, and
+// thrown away. One is enough: nothing may interleave with a header block
+// (RFC 7540 6.10).
+type blockRemainder struct {
+	open   bool
+	id     uint32
+	carry  []byte
+	fields int
+}
+
+// skipFields decodes the fields in b for what they do to the dynamic table and
+// drops them. fields is how many fields of the block came before b, and last
+// says that the block ends with b. It returns the bytes of a field that the end
+// of the frame cut short, to go in front of the next fragment, and the new
+// field count.
+func (sc *serverConn) skipFields(b []byte, fields int, last bool) ([]byte, int, error) {
+	hf := AcquireHeaderField()
+	defer ReleaseHeaderField(hf)
+
+	for len(b) > 0 {
+		pb := b
+
+		var err error
+
+		b, err = sc.dec.nextField(hf, fields == 0, fields, b)
+		if err != nil {
+			if errors.Is(err, ErrUnexpectedSize) && !last {
+				return pb, fields, nil
+			}
+
+			return nil, fields, NewGoAwayError(CompressionError, err.Error())
+		}
+
+		if len(b) == 0 && hf.Empty() {
+			// Ended in a dynamic table size update: no field.
+			break
+		}
+
+		fields++
+	}
+
+	return nil, fields, nil
+}
+
+// rejectBlock is how handleHeaderFrame turns a request away part way through a
+// header fragment: b, the rest of the fragment, is decoded and dropped, so
+// that the stream error stays the stream's. If the block goes on in
+// CONTINUATION frames, closeStream hands what is left to sc.discard.
+func (sc *serverConn) rejectBlock(strm *Stream, fr *FrameHeader, b []byte, reason error) error {
+	carry, fields, err := sc.skipFields(b, strm.blockFields+1, fr.Flags().Has(FlagEndHeaders))
+	if err != nil {
+		return err
+	}
+
+	strm.previousHeaderBytes = append(strm.previousHeaderBytes[:0], carry...)
+	strm.blockFields = fields
+
+	return reason
+}
+
+// discardFrame takes in a frame that was on its way to a stream this side has
+// reset or refused. The frame is ignored (RFC 7540 5.1) except for what it
+// does to the state both ends share: DATA spent connection window, and a header
+// block moves the dynamic table.
+func (sc *serverConn) discardFrame(fr *FrameHeader) error {
+	switch fr.Type() {
+	case FrameData:
+		sc.consumeConnRecvWindow(fr.Len())
+	case FrameHeaders, FrameContinuation:
+		d := &sc.discard
+
+		if fr.Type() == FrameHeaders || !d.open || d.id != fr.Stream() {
+			d.carry, d.fields = d.carry[:0], 0
+		}
+
+		last := fr.Flags().Has(FlagEndHeaders)
+
+		b := append(d.carry, fr.Body().(FrameWithHeaders).Headers()...)
+
+		carry, fields, err := sc.skipFields(b, d.fields, last)
+		if err != nil {
+			return err
+		}
+
+		d.id = fr.Stream()
+		d.carry = append(b[:0], carry...)
+		d.fields = fields
+		d.open = !last
+	}
+
+	return nil
+}
+
 func (sc *serverConn) handleHeaderFrame(strm *Stream, fr *FrameHeader) error {
 	// A second header block on a stream whose request headers are already done
 	// is a trailer, which must end the stream. Its fields join the request
@@ -1246,6 +1389,8 @@ func (sc *serverConn) handleHeaderFrame(strm *Stream, fr *FrameHeader) error {
 	if fr.Type() != FrameContinuation {
 		strm.blockFields = 0
 	}
+
+	strm.blockOpen = !fr.Flags().Has(FlagEndHeaders)
 
 	// Appending to the stream's own buffer and handing it back keeps the
 	// capacity across frames instead of allocating a header block every time.
@@ -1299,39 +1444,39 @@ func (sc *serverConn) handleHeaderFrame(strm *Stream, fr *FrameHeader) error {
 		// Header field names must not contain uppercase characters.
 		// https://httpwg.org/specs/rfc7540.html#rfc.section.8.1.2
 		if hasUpperCase(k) {
-			return NewResetStreamError(ProtocolError, "header field name contains uppercase characters")
+			return sc.rejectBlock(strm, fr, b, NewResetStreamError(ProtocolError, "header field name contains uppercase characters"))
 		}
 
 		if hf.IsPseudo() {
 			// All pseudo-header fields must appear before regular header fields.
 			// https://httpwg.org/specs/rfc7540.html#rfc.section.8.1.2.1
 			if strm.regularSeen {
-				return NewResetStreamError(ProtocolError, "pseudo-header field after regular header field")
+				return sc.rejectBlock(strm, fr, b, NewResetStreamError(ProtocolError, "pseudo-header field after regular header field"))
 			}
 
 			switch {
 			case bytes.Equal(k, StringMethod):
 				if strm.pseudoMethod {
-					return NewResetStreamError(ProtocolError, "duplicate :method pseudo-header")
+					return sc.rejectBlock(strm, fr, b, NewResetStreamError(ProtocolError, "duplicate :method pseudo-header"))
 				}
 				strm.pseudoMethod = true
 				req.Header.SetMethodBytes(v)
 			case bytes.Equal(k, StringPath):
 				if strm.pseudoPath {
-					return NewResetStreamError(ProtocolError, "duplicate :path pseudo-header")
+					return sc.rejectBlock(strm, fr, b, NewResetStreamError(ProtocolError, "duplicate :path pseudo-header"))
 				}
 				strm.pseudoPath = true
 				strm.path = append(strm.path[:0], v...)
 				req.Header.SetRequestURIBytes(v)
 			case bytes.Equal(k, StringScheme):
 				if strm.pseudoScheme {
-					return NewResetStreamError(ProtocolError, "duplicate :scheme pseudo-header")
+					return sc.rejectBlock(strm, fr, b, NewResetStreamError(ProtocolError, "duplicate :scheme pseudo-header"))
 				}
 				strm.pseudoScheme = true
 				strm.scheme = append(strm.scheme[:0], v...)
 			case bytes.Equal(k, StringAuthority):
 				if strm.pseudoAuthority {
-					return NewResetStreamError(ProtocolError, "duplicate :authority pseudo-header")
+					return sc.rejectBlock(strm, fr, b, NewResetStreamError(ProtocolError, "duplicate :authority pseudo-header"))
 				}
 				strm.pseudoAuthority = true
 				req.Header.SetHostBytes(v)
@@ -1339,7 +1484,7 @@ func (sc *serverConn) handleHeaderFrame(strm *Stream, fr *FrameHeader) error {
 			default:
 				// Any pseudo-header that is not a valid request pseudo-header
 				// (including response pseudo-headers such as :status) is invalid.
-				return NewResetStreamError(ProtocolError, fmt.Sprintf("invalid request pseudo-header %s", k))
+				return sc.rejectBlock(strm, fr, b, NewResetStreamError(ProtocolError, fmt.Sprintf("invalid request pseudo-header %s", k)))
 			}
 
 			strm.blockFields++
@@ -1352,11 +1497,11 @@ func (sc *serverConn) handleHeaderFrame(strm *Stream, fr *FrameHeader) error {
 		// Connection-specific header fields are forbidden.
 		// https://httpwg.org/specs/rfc7540.html#rfc.section.8.1.2.2
 		if isConnectionSpecific(k) {
-			return NewResetStreamError(ProtocolError, "connection-specific header field")
+			return sc.rejectBlock(strm, fr, b, NewResetStreamError(ProtocolError, "connection-specific header field"))
 		}
 
 		if bytes.Equal(k, StringTE) && !bytes.Equal(v, StringTrailers) {
-			return NewResetStreamError(ProtocolError, "TE header field with a value other than trailers")
+			return sc.rejectBlock(strm, fr, b, NewResetStreamError(ProtocolError, "TE header field with a value other than trailers"))
 		}
 
 		switch {
@@ -1368,11 +1513,11 @@ func (sc *serverConn) handleHeaderFrame(strm *Stream, fr *FrameHeader) error {
 			n, perr := parseUint(v)
 			if perr != nil {
 				// https://httpwg.org/specs/rfc7540.html#rfc.section.8.1.2.6
-				return NewResetStreamError(ProtocolError, "content-length is not a number")
+				return sc.rejectBlock(strm, fr, b, NewResetStreamError(ProtocolError, "content-length is not a number"))
 			}
 
 			if sc.maxRequestBodySize > 0 && n > sc.maxRequestBodySize {
-				return NewResetStreamError(EnhanceYourCalm, "request body is too large")
+				return sc.rejectBlock(strm, fr, b, NewResetStreamError(EnhanceYourCalm, "request body is too large"))
 			}
 
 			strm.contentLength = n
@@ -1578,7 +1723,7 @@ func (sc *serverConn) sendData(strm *Stream) bool {
 				// through a body it will otherwise wait for.
 				sc.logger.Printf("ERROR: reading the response body: %s\n", err)
 				sc.closeBodyStream(strm)
-				sc.writeReset(strm.ID(), InternalError)
+				sc.resetStream(strm, InternalError)
 
 				return true
 			}
